@@ -614,13 +614,13 @@ _REQUIRED_CLASSES = tuple('class:' + c for c in lmfmut.BODY_CLASSES + lmfmut.HEA
 
 SUBS = [
     Sub('valid', valid_oracle, _classify_valid, strategy=lambda tier: _valid_cases(),
-        budget={'quick': 45, 'thorough': 300}, fingerprint=_fp, sample=_sample,
+        budget={'quick': 60, 'thorough': 300}, fingerprint=_fp, sample=_sample,
         require_tags=('extension', 'literal-white-space', 'cdata-lookalike',
                       'scanned:amp-or-lt', 'scanned:quote', 'scanned:tab-lf-cr',
                       'scanned:non-ascii-as-reference')),
     Sub('mutants', mutant_oracle, _classify_mutant,
         strategy=lambda tier: _mutant_cases(6 if tier == 'quick' else 8),
-        budget={'quick': 50, 'thorough': 220}, fingerprint=_fp, sample=_sample,
+        budget={'quick': 70, 'thorough': 220}, fingerprint=_fp, sample=_sample,
         require_tags=tuple('class:' + c for c in lmfmut.BODY_CLASSES) + (
             'group:header-fault', 'group:header-variant',
             'site:child-duplicated:Lemma', 'site:child-duplicated:ILIDefinition',
